@@ -402,7 +402,7 @@ def replay_public(case):
         else:
             res["dev"] = max(res["dev"], dev)
         if case["id"] % 3 == 0:      # a transformation close to (but not) the identity is still a transformation
-            Un = np.eye(n) * (1 + 2.0 ** -18) + 2.0 ** -28 * (np.arange(n * n).reshape(n, n) % 7 - 3)
+            Un = np.eye(n) * (1 + 2.0 ** -18) + 2.0 ** -30 * (np.arange(n * n).reshape(n, n) % 7 - 3)
             ln = f(shells, Un)
             wn = apply_all(Un, typed, nb)
             dn = float(common.above_noise(np.abs(ln - wn).max()) / (np.abs(wn).max() + 1e-300)) if ln.shape == wn.shape else float("inf")
